@@ -112,6 +112,35 @@ def check_group(w, rep, name, G, tier):
                   "to_Matrix returns shape %s, matrix_shape is %s" % (getattr(TX, "shape", None), ms), where=W("to_Matrix"))
         if not (isinstance(TX, MatVal) and TX.shape == tuple(ms)):
             ok_tm = False
+    # ---- the matrix of an element must not depend on how its parameter vector is STORED: a vector with structural zeros
+    # (ca.SX(n,1) with single entries assigned, the way identity() and hand-built elements are made) denotes the same element
+    if ok_tm and isinstance(xp, MatVal) and all(p_.single_atom() is not None for p_ in xp.flat()) and rot_kind(w, G) != "dcm":
+        from .c16 import subs_syms
+        xa_ = sym_atoms_of(xp)
+        bad_k = None
+        undec = False
+        for k_ in range(n):
+            sp = MatVal(n, 1, None, "SX")
+            sp.cells[k_][0] = xp.cells[k_][0]
+            oks, Ts = guarded(w, rep, "C01.SHP", "%s to_Matrix of a sparse parameter vector" % name, lambda: w.call(w.elem(G, sp), "to_Matrix"))
+            if not oks:
+                undec = True
+                break
+            want = subs_syms(TX, {a: Poly() for j_, a in enumerate(xa_) if j_ != k_})
+            v_, d_ = decide_mat(Ts, want)
+            if v_ == DIFFERENT:
+                bad_k = (k_, d_)
+                break
+            if v_ == UNKNOWN:
+                undec = True
+        inst_ = "%s: to_Matrix of a parameter vector with structural zeros = to_Matrix with those entries set to 0" % name
+        if bad_k is not None:
+            rep.fail("C01.SHP", inst_, "with only parameter %d stored (the others structurally zero) the matrix differs from the dense evaluation: the element's matrix depends on the sparsity pattern of its "
+                     "parameter vector (e.g. iterating param.nonzeros()): %s" % bad_k, where=W("to_Matrix"))
+        elif undec:
+            rep.na("C01.SHP", inst_, "not decided for this group")
+        else:
+            rep.ok("C01.SHP", inst_, fact={"patterns": n})
     M = w.sym("M", ms[0], ms[1])
     ok_fm, FM = guarded(w, rep, "C01.API", "%s.from_Matrix" % name, lambda: w.call(G, "from_Matrix", M))
     if ok_fm:
